@@ -23,6 +23,11 @@ ASSUMPTIONS = ["two-letter names that are BASIC09 reserved words (IF ON OR TO DO
 REQUIRED_COUNTERS = ["identifiers_checked"]
 EXHAUSTIVE = {"quick": True, "thorough": True}
 
+CB_KEYWORDS = ["TO", "IF", "ON", "OR", "FN", "GO", "LET", "AND", "NOT", "END", "FOR", "DIM", "REM", "RUN", "CLS", "NEW", "SET", "PUT", "GET",
+               "SGN", "INT", "ABS", "POS", "RND", "SIN", "COS", "TAN", "ATN", "LOG", "EXP", "SQR", "LEN", "VAL", "ASC", "STR", "CHR", "MID",
+               "MEM", "USR", "TAB", "DEF", "CSAVE", "SKIPF", "PEEK", "POKE", "STEP", "THEN", "ELSE", "NEXT", "DATA", "READ", "STOP", "LIST",
+               "CONT", "EXEC", "OPEN", "LINE", "PSET", "DRAW", "PLAY", "DLOAD", "TRON", "EDIT", "HEX", "FIX", "OFF", "SUB", "BRK", "ERR", "RGB",
+               "CMP", "ATTR", "HSET", "HPUT", "HGET"]
 B09_RESERVED2 = {"IF", "ON", "OR", "TO", "DO", "PI", "SQ"}
 GENERATED = {"display", "play", "pid", "erno", "errnum", "joy0x", "joy0y", "joy1x", "joy1y"}
 
@@ -261,4 +266,6 @@ def cases(tier, seed):
             c1 = rng.choice([c for c in letters if c != base[0]])
             n1 = base + rng.choice(second)
             n2 = c1 + n1[1:]
+        if any(k in n for n in (n1, n2) for k in CB_KEYWORDS):
+            continue       # Color BASIC tokenises keywords wherever they occur: such spellings are not variable names at all
         yield {"kind": "pair", "names": [n1, n2], "suffix": "$" if i % 2 else "", "array": (i // 2) % 2 == 1}
